@@ -234,6 +234,86 @@ fn mutants(doc: &str, tree: &[Elem]) -> Vec<Mutant> {
     m
 }
 
+/// Other spellings of the same document, as clients other than s3s's own serializer write them. Each has the same XML
+/// meaning; the whole mutant family is applied to each of them too (so every mutation also meets every spelling).
+fn spellings(doc: &str, tree: &[Elem]) -> Vec<(&'static str, String)> {
+    let mut out = Vec::new();
+    // (1) empty elements self-closed: <X></X> -> <X/>
+    {
+        let mut v = doc.to_owned();
+        let mut empties: Vec<&Elem> = tree.iter().filter(|e| e.inner.0 == e.inner.1 && e.span.1 > e.inner.0).collect();
+        empties.sort_by_key(|e| std::cmp::Reverse(e.span.0));
+        for e in empties {
+            let start_tag = &doc[e.span.0..e.inner.0];
+            let self_closed = format!("{}/>", &start_tag[..start_tag.len() - 1]);
+            v.replace_range(e.span.0..e.span.1, &self_closed);
+        }
+        if v != doc {
+            out.push(("self-closed-empty-elements", v));
+        }
+    }
+    // (2) indented: line break + blanks between elements (never inside a leaf's text)
+    {
+        let mut points: Vec<(usize, usize)> = Vec::new(); // (offset, depth)
+        for e in tree {
+            if e.depth > 0 {
+                points.push((e.span.0, e.depth));
+            }
+            if e.children > 0 {
+                points.push((e.inner.1, e.depth));
+            }
+        }
+        points.sort_by_key(|p| std::cmp::Reverse(p.0));
+        let mut v = doc.to_owned();
+        for (off, depth) in &points {
+            v.insert_str(*off, &format!("\r\n{}", "  ".repeat(*depth)));
+        }
+        if !points.is_empty() {
+            out.push(("indented", v));
+        }
+    }
+    // (3) a processing instruction before the root, a comment right after its start tag, a comment after the root
+    if let Some(root) = tree.iter().find(|e| e.depth == 0) {
+        let mut v = doc.to_owned();
+        v.push_str("<!-- after -->\n");
+        v.insert_str(root.inner.0, "<!-- inside -->");
+        v.insert_str(root.span.0, "<?pi before?>\n");
+        out.push(("comments-and-pi-around", v));
+    }
+    out
+}
+
+fn judge_spellings(a: &mut Acc, order: u64, d: &dyn XmlDriver, which: &str, alts: &[usize], doc: &str) {
+    let Ok(tree) = parse_tree(doc) else { return };
+    for (name, variant) in spellings(doc, &tree) {
+        let id = || format!("{}/{which}/spelling:{name}", d.name());
+        if a.replay_filter.as_ref().is_some_and(|f| !f.starts_with(&format!("{}/{which}", d.name()))) {
+            continue;
+        }
+        a.eval();
+        a.nontrivial(fnv(id().as_bytes()));
+        if parse_tree(&variant).is_err() {
+            machinery_failure(&format!("C13: spelling variant {name} of a {} document is not well-formed: {variant:?}", d.name()));
+        }
+        match d.decode_compare(alts, variant.as_bytes()) {
+            Decoded::Same => {
+                a.outcome(&format!("spelling {name}: same value"));
+                // every mutation meets this spelling as well
+                judge_mutants(a, order, d, &format!("{which}+{name}"), alts, &variant);
+            }
+            Decoded::Differs { got, want } => {
+                a.outcome(&format!("spelling {name}: VALUE CHANGED"));
+                a.fail(&format!("C13/meaning/spelling-changes-the-value/{name}"), order, id(), format!("{variant:?} has the same XML meaning as the serializer's own spelling but decodes to {got} instead of {want}"), json!({"type": d.name()}));
+            }
+            Decoded::Refused(e) => {
+                a.outcome(&format!("spelling {name}: refused (recorded; refusal is allowed)"));
+                a.count(&format!("spelling {name} refused: {e}"), 1);
+            }
+            Decoded::Panicked => a.fail("C13/decode-panics/spelling", order, id(), format!("panic on {variant:?}"), json!({})),
+        }
+    }
+}
+
 fn judge_mutants(a: &mut Acc, order: u64, d: &dyn XmlDriver, which: &str, alts: &[usize], doc: &str) {
     let Ok(tree) = parse_tree(doc) else { return };
     for mu in mutants(doc, &tree) {
@@ -428,13 +508,14 @@ pub fn run(ctx: &Ctx) -> (Acc, Report) {
                 let text = String::from_utf8_lossy(&doc).into_owned();
                 if matches!(d.decode_compare(&alts, &doc), Decoded::Same) {
                     judge_mutants(a, di, d.as_ref(), which, &alts, &text);
+                    judge_spellings(a, di, d.as_ref(), which, &alts, &text);
                 }
             }
         }
     });
     let rep = Report {
         level: "exploration",
-        rule: format!("{n_types} types ({XML_ROOT_TYPES} root, {XML_CONTENT_TYPES} content) with both an encoder and a decoder: base value and every single-member deviation to nesting depth 6 over the XML text alphabet (empty, edge blanks, markup characters, ]]>, non-ASCII, tab/newline, CR, U+0085, U+FFFD), integers 0/-1/max, booleans, timestamps, first/last/unknown enum constants, 1- and 2-item lists (thorough: pairs) -> encode -> well-formed (xmlparser) and decode == value; on the encoded base and a populated value of each type every instance of: truncation at every offset, rename / duplicate / delete of each element, swap of adjacent siblings, unknown child, second root, text outside the root, CDATA / partial CDATA / comment / PI / decimal and hex character reference rewrites of each text node, 'abc' appended to each text node. Differential oracles. Distinct by id."),
+        rule: format!("{n_types} types ({XML_ROOT_TYPES} root, {XML_CONTENT_TYPES} content) with both an encoder and a decoder: base value and every single-member deviation to nesting depth 6 over the XML text alphabet (empty, edge blanks, markup characters, ]]>, non-ASCII, tab/newline, CR, U+0085, U+FFFD), integers 0/-1/max, booleans, timestamps, first/last/unknown enum constants, 1- and 2-item lists (thorough: pairs) -> encode -> well-formed (xmlparser) and decode == value; on the encoded base and a populated value of each type every instance of: truncation at every offset, rename / duplicate / delete of each element, swap of adjacent siblings, unknown child, second root, text outside the root, CDATA / partial CDATA / comment / PI / decimal and hex character reference rewrites of each text node, 'abc' appended to each text node, attribute duplication / quote style / blanks / order / character reference / removal / suffix; and the same family again on three other spellings of each document (empty elements self-closed, indented with line breaks between elements, comments and a PI around and inside the root), each spelling itself being judged as a meaning-preserving rewrite. Differential oracles. Distinct by id."),
         exhaustive: true,
         extra: json!({"types": n_types, "encode_only_root_types_not_covered_here(decoded by the SDK in C03)": XML_ENCODE_ONLY_ROOTS, "content_types_with_attribute_members(no stand-alone encoding; covered through Grant, TargetGrant and the roots containing them)": XML_ATTRIBUTE_BEARING_CONTENT_TYPES}),
         assumptions: vec!["decoding by an independent S3 client is C02/C03's half (aws-sdk-s3); here the independent party is the xmlparser tokenizer".into(), "member order inside a structure is not part of the statement: reorderings are recorded only".into()],
